@@ -67,7 +67,7 @@ Definition draw_value (r : rnd) (s : stream) : value * stream :=
       let res := mn + randrange 0 days d in (if stamp then VFlt (js_stamp res) else VDate res, s2)
   | RValue v _ => (v, s)
   | RSample vals counts _ => let (d, s2) := next s in (sample vals counts d, s2)
-  | RText _ => let (d, s2) := next s in (VStr (dt d), s2)
+  | RText arg _ => let (d, s2) := next s in (VStr (arg ++ dt d), s2)
   end.
 
 Lemma gen_eq r s :
@@ -95,7 +95,7 @@ Qed.
 
 Lemma draw_produces r raw : rnd_wf r -> in_range r raw -> produces (draw_value r) raw.
 Proof.
-  destruct r as [lo hi p none | lo hi p none | mn days stamp p | v p | vals counts p | p];
+  destruct r as [lo hi p none | lo hi p none | mn days stamp p | v p | vals counts p | arg p];
     cbn [rnd_wf in_range draw_value]; intros Hwf Hin.
   - destruct Hin as [z [-> Hz]]. exists [D (z - lo) 1 []]. intros s. cbn [app next draw_value].
     unfold randrange. cbn [dn]. rewrite Z.mod_small by lia. do 2 f_equal. lia.
